@@ -13,7 +13,7 @@ def chk(pid, level, text, note, technique, design):
     CHECKS[pid] = dict(level=level, text=text, note=note, technique=technique, design=design)
 
 chk("C01", "exploration",
-    "Seeded deterministic simulation of Unpack on the real code inside a chroot arena: adversarial entry sequences (histories), reader chunking/faults/truncation at arbitrary offsets, repeated Unpack into one dst, uid 0 and 65534; a total before/after snapshot of everything outside dst is the oracle. Sampled, not exhaustive: bounded evidence over <=12 entries x <=3 archives.",
+    "Seeded deterministic simulation of Unpack on the real code inside a chroot arena: adversarial entry sequences (histories), reader chunking/faults/truncation at arbitrary offsets, repeated Unpack into one dst, destinations that are a link, behind a link or do not exist yet, uid 0 and 65534; a total before/after snapshot of everything outside dst is the oracle. Sampled, not exhaustive: bounded evidence over <=12 entries x <=3 archives.",
     "Trusted: kernel file system, archive/tar, gzip, the snapshot walker. Assumes no other process touches the arena. linux/amd64 only.",
     "deterministic simulation: seeded entry-sequence and reader-fault search with total-snapshot invariant, minimised replayable scenarios", "5 C01")
 chk("C04", "exploration",
@@ -50,7 +50,7 @@ chk("C12", "fault_enumeration",
     "Bases and fault pairs are sampled; syscall-level faults are not injected; crash = process death with completed syscalls durable.",
     "fault enumeration over simulated devices and peers (deterministic simulation), porcupine history check for the poisoned builder", "5 C12")
 chk("C19", "exploration",
-    "Hostile scenarios of all worlds run in watched worker processes: mutated tar headers with repaired checksums, truncations, link cycles, directory loops, fifo targets, degenerate rule files, hostile manifests and peer-supplied address strings; oracles: no panic, no process death, step bounds, real-time budget confirmed by a solo re-run.",
+    "Hostile scenarios of all worlds run in watched worker processes: mutated tar headers with repaired checksums, truncations, link cycles, directory loops, fifo targets, degenerate rule files, hostile manifests and peer-supplied address strings; oracles: no panic, no process death, step bounds, stored bytes bounded by the bytes read (pax sparse entries), real-time budget confirmed by a solo re-run.",
     "The string-parser part is plain seeded generation arriving through simulated peers; bounded real-time budget is used only where steps cannot be counted.",
     "deterministic simulation with watched worker processes: hostile input/fault workload, panic/crash/hang oracles", "5 C19")
 
@@ -63,7 +63,7 @@ chk("C09", "exploration",
     "Same platform on both sides; mtimes compared after rounding to the second as the archive format does.",
     "deterministic simulation: restart and streamed hand-over (two tasks over a simulated pipe) as generated operations, fingerprint/tree equality", "5 C09")
 chk("C10", "exploration",
-    "The simulated fetcher delivers hostile trees (escaping/absolute/dangling/chained links, links naming the manifest, a sibling, the temporary directory, links through rule-excluded directories, fifos); on success every package directory must contain only files, directories and links resolving physically inside it, with no .tmp-* left; on every outcome - also under the C12 peer-fault sweep and with concurrent client tasks - a total snapshot must show nothing outside the target changed.",
+    "The simulated fetcher delivers hostile trees (escaping/absolute/dangling/chained links, links naming the manifest, a sibling, the temporary directory, links through rule-excluded directories or through a link to the package's own root, fifos); on success every package directory must contain only files, directories and links resolving physically inside it, with no .tmp-* left; on every outcome - also under the C12 peer-fault sweep and with concurrent client tasks - a total snapshot must show nothing outside the target changed.",
     "The model predicts 'must be refused' from the rule-filtered tree; where a link leads through a directory the rules may remove, no prediction is made.",
     "deterministic simulation: hostile peer + fault x schedule search, physical link-resolution and total-snapshot invariants", "5 C10")
 chk("C13", "exploration",
